@@ -67,6 +67,7 @@ class FakeSocket:
         self.addr = None
         self.mode = 'exact'    # meaning of sendscript entries >= 0, see send()
         self.was_reset = False
+        self.at_eof = False    # end-of-stream has been delivered: readable for ever after
 
     def __repr__(self):
         return '<FakeSocket %s fd=%d>' % (self.name, self.fd)
@@ -86,8 +87,12 @@ class FakeSocket:
             self.misuse.append('recv')
             raise OSError(errno.EBADF, 'Bad file descriptor')
         if not self.inq:
+            if self.at_eof:
+                return b''              # a socket whose peer has closed stays readable and keeps returning end-of-stream
             raise BlockingIOError(errno.EAGAIN, 'would block')
         item = self.inq.pop(0)
+        if isinstance(item, bytes) and len(item) == 0:
+            self.at_eof = True
         if isinstance(item, BaseException):
             if isinstance(item, ConnectionResetError):
                 self.was_reset = True
@@ -117,7 +122,11 @@ class FakeSocket:
         if not scripted:
             k = n
         elif self.mode == 'fair':
-            # like 'class', but every write accepts at least one byte (the peer keeps reading)
+            # like 'class', but every write accepts at least one byte (the peer keeps reading); 4 = one spurious wake-up: the selector
+            # reported the socket writable but this send() would block (the script is finite, so the socket accepts data again later)
+            if k == 4:
+                self.sends.append((n, 'EAGAIN'))
+                raise BlockingIOError(errno.EAGAIN, 'would block')
             if k == 0:
                 k = n
             elif k == 1:
@@ -239,7 +248,7 @@ class FakeSelector:
                 if s is None:
                     continue
                 m = 0
-                if (key.events & selectors.EVENT_READ) and s.inq:
+                if (key.events & selectors.EVENT_READ) and (s.inq or s.at_eof):
                     m |= selectors.EVENT_READ
                 if key.events & selectors.EVENT_WRITE:
                     m |= selectors.EVENT_WRITE
